@@ -48,6 +48,12 @@ def run(ctx):
     ctx.cov["design_counterexample"] = "RefusedLeavesNoTraceStrict refuted on ForkA (tie after failed reorganisation)"
     if not ctx.violations:
         L.selftest(ctx, binp, first[0], first[1])
+    # R->V: seeded random block trees with random (partly invalid) transactions, random delivery orders
+    hist, events, st2 = L.record_validate(ctx, binp, 8 if quick else 120, 14 if quick else 18, 5 if quick else 8)
+    ctx.log("R->V: %d random histories (%d events) validated by TraceLedger" % (hist, events))
+    replayed += hist
+    states += st2
+    ctx.cov["recorded_random_histories"] = hist
     ctx.level = "model_checking"
     ctx.cov.update({"states": states, "transitions": transitions, "traces_validated_against_impl": replayed,
                     "exhaustive": True, "families": [f for f, _ in fams],
